@@ -466,7 +466,7 @@ Spec == Init /\ [][Next]_vars
 TypeOK ==
   /\ chain \in Paths \cup {<<>>}
   /\ height \in -1..(MaxLen - 1)
-  /\ l1 \in -1..MaxLen
+  /\ l1 \in -1..HugeNum
   /\ seen \subseteq Paths
   /\ reverts \in 0..MaxReverts
 
